@@ -9,9 +9,10 @@ import subprocess
 import sys
 import time
 
+TOGETHER = {"b820b69": ["64bb021"], "94258ae": ["4a92d24"]}
 res = []
 try:
-    res = [r for r in json.load(open("/verif/fix_validation.json")) if r.get("result") == "detected"]
+    res = [r for r in json.load(open("/verif/fix_validation.json")) if str(r.get("result", "")).startswith("detected")]
 except Exception:
     res = []
 done = {r["commit"] for r in res}
@@ -25,11 +26,15 @@ for entry in kf["fixed"]:
         continue
     if commit in done:
         continue
-    diff = subprocess.run(["git", "-C", "/repo", "show", "--format=", commit], capture_output=True, text=True).stdout
-    p = subprocess.run(["git", "-C", "/repo", "apply", "-R", "--3way"], input=diff, capture_output=True, text=True)
+    # a later fix that rewrote the same lines is reverted first (the earlier defect is then exposed again)
+    for c2 in TOGETHER.get(commit, []) + [commit]:
+        diff = subprocess.run(["git", "-C", "/repo", "show", "--format=", c2], capture_output=True, text=True).stdout
+        p = subprocess.run(["git", "-C", "/repo", "apply", "-R", "--3way"], input=diff, capture_output=True, text=True)
+        if p.returncode != 0:
+            break
     if p.returncode != 0:
-        subprocess.run(["git", "-C", "/repo", "checkout", "--", "."])
         subprocess.run(["git", "-C", "/repo", "reset", "-q"])
+        subprocess.run(["git", "-C", "/repo", "checkout", "--", "."])
         res.append({"property": prop, "commit": commit, "what": what, "result": "could not revert cleanly", "detail": p.stderr[-300:]})
         print(prop, commit, "REVERT FAILED")
         continue
@@ -41,7 +46,8 @@ for entry in kf["fixed"]:
     sigs = [l.strip() for l in c.stdout.splitlines() if l.strip().startswith("signature:")]
     res.append({"property": prop, "commit": commit, "what": what, "exit": c.returncode, "violations": len(viol),
                 "signatures": sigs[:4], "wall_s": round(time.time() - t0, 1),
-                "result": "detected" if c.returncode == 1 and viol else "NOT DETECTED"})
+                "result": ("detected" + (" (together with %s)" % ",".join(TOGETHER[commit]) if commit in TOGETHER else ""))
+                if c.returncode == 1 and viol else "NOT DETECTED"})
     print(prop, commit, res[-1]["result"], res[-1]["wall_s"], flush=True)
     json.dump(res, open("/verif/fix_validation.json", "w"), indent=1)
 json.dump(res, open("/verif/fix_validation.json", "w"), indent=1)
